@@ -629,9 +629,26 @@ def emit(repo: str) -> str:
     if TS != "'''" or TD != '"""':
         # the proofs are about three equal quote characters; any other token is a different scanner
         raise Unrecognised(f"triple-quote tokens changed: {TS!r} {TD!r}")
-    _, fix_walk = _check(t, "_get_comment_ending_at_line",
-                         lambda c: True if len(c) == 3 and sorted(c[:2]) == sorted([TS, TD]) and c[2] == "\n" else None,
-                         repairable=True)
+    # the upward walk: three recognised shapes -
+    #   (quote-line test only) | (quote-line test + code-line test) | (code-line test only, commit aafa06c)
+    wfn = find_def(t, "_get_comment_ending_at_line")
+    wtext, wconsts = skeleton(wfn)
+    quote_ok = len(wconsts) == 3 and sorted(wconsts[:2]) == sorted([TS, TD]) and wconsts[2] == "\n"
+    w_old, w_both = EXPECT["_get_comment_ending_at_line"], _repaired("_get_comment_ending_at_line")
+    quote_test = "        if S0 in line_str or S1 in line_str:\n            break\n"
+    assert w_both.count(quote_test) == 1
+    w_code_only = w_both.replace(quote_test, "").replace("S2.join(lines)", "S0.join(lines)")
+    if wtext == w_old and quote_ok:
+        fix_walk, walk_quote = False, True
+    elif wtext == w_both and quote_ok:
+        fix_walk, walk_quote = True, True
+    elif wtext == w_code_only and wconsts == ["\n"]:
+        fix_walk, walk_quote = True, False
+    else:
+        import difflib
+        d = [l for l in difflib.unified_diff(w_code_only.splitlines(), wtext.splitlines(), lineterm="", n=0)
+             if not l.startswith(("---", "+++", "@@"))]
+        raise Unrecognised("_get_comment_ending_at_line: shape changed: " + " | ".join(d)[:400] + f" literals {wconsts!r}")
     _, fix_entry = _check(t, "_get_attribute_docstring", lambda c: True if c == ["", "", "\n"] else None,
                           repairable=True)
 
@@ -737,6 +754,7 @@ def emit(repo: str) -> str:
         f"Definition HELP_STRING_CHAIN : list part := {plist(hs_chain)}.\n"
         "(* repairs present in the source (false = the shape before the repair) *)\n"
         f"Definition FIX_WALK : bool := {'true' if fix_walk else 'false'}.   (* comment walk stops at code lines *)\n"
+        f"Definition walk_stops_at_quote_lines_gen : bool := {'true' if walk_quote else 'false'}.   (* ... at any line with a triple-quote token (comment lines included) *)\n"
         f"Definition FIX_ENTRY : bool := {'true' if fix_entry else 'false'}.  (* class-docstring entry of a non-declaring class kept *)\n"
         f"Definition FIX_ALIAS : bool := {'true' if fix_alias else 'false'}.  (* the cached AttributeDocString is copied, not aliased *)\n"
         "(* tie audit: the lru_cache on _get_attribute_docstring; the oracles the scanner is fed by; the help= of the action *)\n"
@@ -754,8 +772,8 @@ def emit(repo: str) -> str:
         "(* the model instantiated with the regenerated facts *)\n"
         "Definition contains_def_gen := contains_def HASH COLON EQUALS.\n"
         "Definition view_gen := view HASH COLON EQUALS TRIPLE_S TRIPLE_D split_step_gen.\n"
-        "Definition scan_lines_gen := scan_lines HASH COLON EQUALS TRIPLE_S TRIPLE_D split_step_gen FIX_WALK.\n"
-        "Definition scan_class_gen := scan_class HASH COLON EQUALS TRIPLE_S TRIPLE_D split_step_gen FIX_WALK FIX_ENTRY.\n"
+        "Definition scan_lines_gen := scan_lines HASH COLON EQUALS TRIPLE_S TRIPLE_D split_step_gen FIX_WALK walk_stops_at_quote_lines_gen.\n"
+        "Definition scan_class_gen := scan_class HASH COLON EQUALS TRIPLE_S TRIPLE_D split_step_gen FIX_WALK walk_stops_at_quote_lines_gen FIX_ENTRY.\n"
         "Definition merge_gen := merge ACC_PARTS.\n"
         "Definition acc_pure_gen := acc_pure ACC_PARTS.\n"
         "Definition get_doc_gen := get_doc ACC_PARTS FIX_ALIAS CACHED.\n"
